@@ -216,7 +216,8 @@ def verify(system, slices):
 
     violations: list of {"rule", "what", "constraint"/"object", "axis", "got", "accept"}
     stats: {"rules": n rules evaluated, "max_residual_cells": worst |anchor-target| in cells,
-            "clamped": number of rules whose best in-volume candidate is > 1 cell from the target,
+            "clamped": number of rules whose best in-volume candidate is > 1 cell from the target
+                       (first few listed in "clamped_items"),
             "ties": rules with more than one minimiser}
     """
     E = edges_of(system)
@@ -226,13 +227,15 @@ def verify(system, slices):
     nonuni = bool(system["nonuniform"])
     spacing = float(E[0][1] - E[0][0])  # only used when uniform
     V = []
-    st = {"rules": 0, "max_residual_cells": 0.0, "clamped": 0, "ties": 0}
+    st = {"rules": 0, "max_residual_cells": 0.0, "clamped": 0, "ties": 0, "clamped_items": []}
 
-    def res(axis, d):
+    def res(axis, d, what=None):
         w = float(np.max(np.diff(E[axis])))
         st["max_residual_cells"] = max(st["max_residual_cells"], d / w)
         if d > w * (1 + 1e-9):
             st["clamped"] += 1
+            if len(st["clamped_items"]) < 4:
+                st["clamped_items"].append({"where": what, "axis": axis, "residual_cells": d / w})
 
     # -- containment, volume ------------------------------------------------------------------
     if slices.get(VOL) != [[0, shape[a]] for a in range(3)]:
@@ -278,7 +281,7 @@ def verify(system, slices):
                 st["rules"] += 1
                 target = rp + 0.5 * (float(E[a][0]) + float(E[a][-1]))
                 acc, dmin = interval_set(E[a], hi - lo, 0.0, target, tol)
-                res(a, dmin)
+                res(a, dmin, f"partial_real_position of {name}")
                 st["ties"] += len(acc) > 1
                 if lo not in acc:
                     V.append({"rule": "real_position", "what": "partial_real_position not honoured", "object": name, "axis": a, "got": [lo, hi], "accept": sorted(acc)})
@@ -300,7 +303,7 @@ def verify(system, slices):
                 if c["gmargins"][i]:
                     target += c["gmargins"][i] * spacing
                 acc, dmin = interval_set(E[a], hi - lo, c["own"][i], target, tol)
-                res(a, dmin)
+                res(a, dmin, f"constraint {ci} (pos)")
                 st["ties"] += len(acc) > 1
                 if lo not in acc:
                     V.append({"rule": "pos", "what": "position constraint: chosen interval is not a closest one", "constraint": ci, "axis": a, "got": [lo, hi], "accept": sorted(acc), "target": target})
@@ -339,7 +342,7 @@ def verify(system, slices):
                 if c.get("goff", 0):
                     target += c["goff"] * spacing
                 want, dmin = nearest_set(E[a], target, tol)
-                res(a, dmin)
+                res(a, dmin, f"constraint {ci} (ext)")
                 st["ties"] += len(want) > 1
             if got not in want:
                 V.append({"rule": "ext", "what": "extension constraint: bound is not a nearest edge to the target", "constraint": ci, "axis": a, "got": got, "accept": sorted(want)})
@@ -359,7 +362,7 @@ def verify(system, slices):
                 st["rules"] += 1
                 got = sl[name][a][0 if c["sides"][i] == "-" else 1]
                 want, dmin = nearest_set(E[a], c["coords"][i], tol)
-                res(a, dmin)
+                res(a, dmin, f"constraint {ci} (rc)")
                 st["ties"] += len(want) > 1
                 if got not in want:
                     V.append({"rule": "rc", "what": "real coordinate constraint: bound is not a nearest edge", "constraint": ci, "axis": a, "got": got, "accept": sorted(want)})
@@ -872,6 +875,37 @@ def family_system(p):
             obj("C", 1)
             cons.append({"k": "pos", "obj": "C", "other": "B", "axes": [a], "own": [0.0], "oth": [0.0], "margins": [0.0], "gmargins": [0]})
     return system
+
+
+def pinned_pair_system(gk, consistent, rel_first=True):
+    """Two fully specified boxes pinned against the volume in one multi-axis constraint each, plus a relation
+    between them that is listed BEFORE the pins (so it cannot be evaluated in the first pass).  With
+    `consistent=False` the relation contradicts the pins and the system has no solution."""
+    shape = [9, 6, 4]
+    grid, non = _family_grid(gk, shape)
+    objs = [{"name": n, "gshape": [2, 2, 2], "rshape": [None] * 3, "rpos": [None] * 3} for n in ("A", "B")]
+
+    def pin(n, own):
+        return {"k": "pos", "obj": n, "other": VOL, "axes": [0, 1, 2], "own": [own] * 3, "oth": [own] * 3, "margins": [0.0] * 3, "gmargins": [0] * 3}
+
+    # A's lower x face on B's lower x face: true only if both sit in the same corner
+    rel = {"k": "pos", "obj": "A", "other": "B", "axes": [0], "own": [-1.0], "oth": [-1.0], "margins": [0.0], "gmargins": [0]}
+    pins = [pin("A", -1.0), pin("B", -1.0 if consistent else 1.0)]
+    cons = [rel] + pins if rel_first else pins + [rel]
+    return {"shape": shape, "grid": grid, "nonuniform": non, "objects": objs, "constraints": cons}
+
+
+def rpos_conflict_system(size_first=True, conflict=True):
+    """An object whose z size comes from a SizeConstraint (so `partial_real_position` cannot be resolved before
+    the constraint pass) with a PositionConstraint that contradicts (or, conflict=False, agrees with) its
+    `partial_real_position`."""
+    shape = [6, 6, 6]
+    obj = {"name": "A", "gshape": [2, 2, None], "rshape": [None] * 3, "rpos": [None, None, 0.0]}  # centred: z = [2, 4)
+    size = {"k": "size", "obj": "A", "other": VOL, "axes": [2], "other_axes": [2], "prop": [1.0 / 3.0], "off": [0.0], "goff": [0]}
+    a = -1.0 if conflict else 0.0
+    pos = {"k": "pos", "obj": "A", "other": VOL, "axes": [2], "own": [a], "oth": [a], "margins": [0.0], "gmargins": [0]}
+    cons = [size, pos] if size_first else [pos, size]
+    return {"shape": shape, "grid": {"kind": "uniform", "spacing": 1.0}, "nonuniform": False, "objects": [obj], "constraints": cons}
 
 
 def strip_meta(system):
